@@ -115,7 +115,10 @@ pub fn gen_corr_train(g: &mut Gen, max_len: f64) -> TrainSpec {
 pub fn gen_dispatch_case(g: &mut Gen, max_trains: usize, o: &CorridorOpts) -> DispatchCase {
     let net = gen_corridor(g, o);
     let n = g.usize(1, max_trains);
-    let term = net.stages.first().unwrap().main.length.min(net.stages.last().unwrap().main.length);
+    // short eastern end: nothing originates on the eastern main-line terminal
+    let short_east = net.stages.last().unwrap().main.length < 2000.0;
+    let east_len = if short_east { f64::INFINITY } else { net.stages.last().unwrap().main.length };
+    let term = net.stages.first().unwrap().main.length.min(east_len);
     let term_side = net
         .stages
         .first()
@@ -143,7 +146,7 @@ pub fn gen_dispatch_case(g: &mut Gen, max_trains: usize, o: &CorridorOpts) -> Di
             1 => Gen::round(g.f64(0.0, 600.0), 0),
             _ => Gen::round(g.f64(0.0, 3600.0), 0),
         };
-        let east = g.bool(0.5);
+        let mut east = g.bool(0.5);
         let mut branch = net.branch.is_some() && g.bool(0.5);
         let _ = i;
         // 8 % of the trains: intermediate origin and / or destination on the main line, at least 9 km apart
@@ -174,6 +177,28 @@ pub fn gen_dispatch_case(g: &mut Gen, max_trains: usize, o: &CorridorOpts) -> Di
                 }
             }
         }
+        if short_east && !east && !branch && from.is_none() {
+            // westbound on the main line: start on an interior stage that holds the train
+            let cands: Vec<usize> = (1..nm.saturating_sub(2))
+                .filter(|k| {
+                    let st = &net.stages[*k];
+                    let l = st.main.length.min(st.side.as_ref().map(|x| x.length).unwrap_or(f64::INFINITY));
+                    l >= 2500.0 && l >= t.length() + 200.0
+                })
+                .collect();
+            if cands.is_empty() {
+                east = true;
+                to = None;
+            } else {
+                // the stage next to the short end most of the time: its flip is the trailing
+                // segment of an eastbound train that ends its run
+                let k = if g.bool(0.6) { *cands.last().unwrap() } else { cands[g.idx(cands.len())] };
+                from = Some(k);
+                if to.map(|d| d >= k).unwrap_or(false) {
+                    to = None;
+                }
+            }
+        }
         trains.push(CorrTrain { east, branch, train: t, from, to });
     }
     DispatchCase { net, trains }
@@ -191,6 +216,11 @@ pub fn scenario_labels(case: &DispatchCase, cx: &mut Ctx) {
     cx.label_if(case.trains.iter().any(|t| t.from.is_some()), "train_with_intermediate_origin");
     cx.label_if(case.trains.iter().any(|t| t.to.is_some()), "train_with_intermediate_destination");
     cx.label_if(case.trains.iter().any(|t| t.to.map(|k| case.net.stages[k].main.length < t.train.length()).unwrap_or(false)), "train_ends_on_a_stage_shorter_than_itself");
+    cx.label_if(case.net.stages[n - 1].main.length < 2000.0, "short_eastern_end");
+    cx.label_if(
+        case.trains.iter().any(|t| t.east && !t.branch && t.to.is_none() && n >= 2 && t.train.length() > case.net.stages[n - 1].main.length + case.net.stages[n - 2].main.length),
+        "train_ends_its_run_over_three_or_more_segments",
+    );
     cx.label_if(case.net.branch.is_some(), "y_junction");
     cx.label_if(case.trains.iter().any(|t| t.branch) && case.trains.iter().any(|t| !t.branch), "trains_to_both_eastern_terminals");
     let e = case.trains.iter().filter(|t| t.east).count();
